@@ -69,6 +69,18 @@ def presession_case():
             'registered': ['work_a', 'work_b', 'work_c'], 'twin_mode': 'same_lines', 'presession': ['work_a', 'work_b']}
 
 
+def shared_line_case(n=3):
+    """two registered functions of one file with a line number in common: a function written on one line and the lambda that is its default
+    argument — each has its own entry with its own executions of that line"""
+    f0 = 'def f(n, k=lambda v: v * 2): return k(n) + k(n + 1)\nf_k = f.__defaults__[0]\n\n\ndef g(n):\n    return f(n) + 1\n'
+    main = 'def driver(n):\n    return [f(n), g(n + 1), f_k(n), f_k(n + 2)]\n'
+    prog = {'files': [['prog_lib.py', progs.PRELUDE], ['prog_0.py', f0], ['prog_main.py', main]],
+            'funcs': [['prog_0.py', 'f', 'plain'], ['prog_0.py', 'f_k', 'plain'], ['prog_0.py', 'g', 'plain'], ['prog_main.py', 'driver', 'plain']],
+            'driver': 'driver', 'features': ['shared-line']}
+    return {'prog': prog, 'steps': [['add', 'f'], ['add', 'f_k'], ['add', 'g'], ['enbc'], ['call', n], ['disbc'], ['snapshot']], 'mode': 'window',
+            'registered': ['f', 'f_k', 'g'], 'twin_mode': None}
+
+
 def same_name_twins_case(via_module, n=4):
     """two files holding the same function under the same name on the same lines (a copied module), each with a caller of its own"""
     body = 'def handle(n):\n    a = n\n    for i in range(n):\n        a += i\n    return a\n\n\n'
@@ -131,6 +143,8 @@ def oracle(r, nwindows=1):
     # one pending line per aliased bytecode can be dropped at each window close (the slot is per thread and bytecode): with functions an earlier
     # profiler had padded, several registered bytecodes can each have an unregistered look-alike
     naliased = r.get('alias_blocks') or len({key.split(':')[0] for key, n in r['alias'].items() if n})
+    # windows are also closed by the programs themselves (`with prof:` blocks inside function bodies): every by-count disable of the recorded run counts
+    nwindows = max(nwindows, sum(1 for o in r.get('ops', []) if o.startswith('disbc')))
     if within and r['alias'] and deficit <= nwindows * max(naliased, 1):
         return 'alias', det
     return 'bad', det
@@ -160,7 +174,7 @@ def run(ctx):
         for f in sorted(os.listdir(corpus_dir)):
             cases.append(json.load(open(os.path.join(corpus_dir, f))))
     ncorpus = len(cases)
-    cases += [same_name_twins_case(True), same_name_twins_case(True, 2), same_name_twins_case(False)]
+    cases += [same_name_twins_case(True), same_name_twins_case(True, 2), same_name_twins_case(False), shared_line_case(), shared_line_case(1)]
     for i in range(n):
         cases.append(make_case(ctx.rng.fork('case%d' % i)))
     ctx.log('running %d cases (%d from corpus)' % (len(cases), ncorpus))
